@@ -20,6 +20,15 @@ type rule12 struct {
 	pattern string // as written (case, trailing dot)
 	prefix  bool   // written with its type prefix
 	val     int
+	noAddr  bool // hosts tables: the rule's value is the empty address list (it yields no answer)
+}
+
+// shown12: a rule and its value as printed in reports
+func (r rule12) shown12() string {
+	if r.noAddr {
+		return r.text() + " => (no address)"
+	}
+	return fmt.Sprintf("%s => %d", r.text(), r.val)
 }
 
 func (r rule12) text() string {
@@ -317,7 +326,7 @@ func runC12(r *Run) {
 	r.sets12()
 	// rules with values: tables of the hosts plugin, and lists larger than the text loader's read buffer (c12hosts.go)
 	r.hosts12()
-	r.Finish("rule sets of 1..9 rules over the four types (prefixed or relying on the set's default type), half of the domain/full patterns derived from earlier ones (duplicate, deeper with a value-less gap, parent, string-suffix-but-not-label-suffix), labels from a word list, service labels with '_' and random labels over every byte class (letters of both cases, digits, '-', '_', the bytes around the letter ranges, other punctuation, DEL), spelled all upper case / one letter / every letter at random (0x20 style), with and without trailing dot, loaded by Add or by the text loader with comments/blank lines; names derived from the rules (exact, sub-label, `not`+name, label glued on, parent, sibling) in random spelling; a sweep over every ASCII byte c placed behind and in front of upper-case letters in domain/full/keyword rules and names, together with the twin name holding c^0x20 (same name for a letter, a different one otherwise); NormalizeDomain and the scanner on fixed shapes, every ASCII byte between letters and random ASCII strings against the model; configurations of 3..12 data_provider/domain_set plugins built by the real NewDomainSet in configuration order (own expressions, a file, references to earlier sets in any order, the same set named twice, now and then a set whose own rules are only rules for the root in one of its spellings (domain:. / . / domain: / the empty expression), alone, in a file or referenced by other sets; half of them several sets derived from a common base of 1..7 members, mostly made of other sets only, the base mostly named first), every set asked for names derived from all rules right after it was built and after all others were built, the answer compared with 'some rule of the set or of a set it references, directly or through other sets, describes the name' and with the model's set construction; tables of the real hosts plugin (2..9 rules of all four types given as entries and in 1..2 files, `<rule> <ipv4> [<ipv6>]`, regular expressions written with upper-case escapes / classes / literals / flags next to lower-case-only ones, mixed-case full/domain/keyword rules) asked with A questions, the address answered mapped back to its rule; rule lists of 120..400 (thorough: up to 3000) lower-case rules, i.e. several read buffers of the text loader, loaded through LoadFromTextReader, Add, both, or a hosts file, every rule asked with its own names (exact, below it, glued to it) after the whole list was loaded, and Len() compared with the model's; expected answers from a trie-free reference whose normalisation changes the 26 upper-case letters only; non-trivial = some name matched and at least 2 rules")
+	r.Finish("rule sets of 1..9 rules over the four types (prefixed or relying on the set's default type), half of the domain/full patterns derived from earlier ones (duplicate, deeper with a value-less gap, parent, string-suffix-but-not-label-suffix), labels from a word list, service labels with '_' and random labels over every byte class (letters of both cases, digits, '-', '_', the bytes around the letter ranges, other punctuation, DEL), spelled all upper case / one letter / every letter at random (0x20 style), with and without trailing dot, loaded by Add or by the text loader with comments/blank lines; names derived from the rules (exact, sub-label, `not`+name, label glued on, parent, sibling) in random spelling; a sweep over every ASCII byte c placed behind and in front of upper-case letters in domain/full/keyword rules and names, together with the twin name holding c^0x20 (same name for a letter, a different one otherwise); NormalizeDomain and the scanner on fixed shapes, every ASCII byte between letters and random ASCII strings against the model; configurations of 3..12 data_provider/domain_set plugins built by the real NewDomainSet in configuration order (own expressions, a file, references to earlier sets in any order, the same set named twice, now and then a set whose own rules are only rules for the root in one of its spellings (domain:. / . / domain: / the empty expression), alone, in a file or referenced by other sets; half of them several sets derived from a common base of 1..7 members, mostly made of other sets only, the base mostly named first), every set asked for names derived from all rules right after it was built and after all others were built, the answer compared with 'some rule of the set or of a set it references, directly or through other sets, describes the name' and with the model's set construction; a third of the configurations (and some of the others) end with 2..4 qname matchers (plugin/matcher/base_domain, built by the qname plugin's quick setup `$set.. rule.. &file` or by NewMatcher from Args) that name a set first - mostly the same set of 1..9 members - and carry expressions / a file of their own, asked through Match(qCtx) with a question for the name right after each was built and after all were built, and replayed on the model as sets; tables of the real hosts plugin (2..9 rules of all four types given as entries and in 1..2 files, `<rule> <ipv4> [<ipv6>]`, regular expressions written with upper-case escapes / classes / literals / flags next to lower-case-only ones, mixed-case full/domain/keyword rules) asked with A questions, the address answered mapped back to its rule; every other table holds rules without address (the rule alone, trailing blanks, or its addresses commented out in a file), some of them full / domain rules for names that a less specific rule with addresses describes too: such a rule is a rule with a value, the name it wins gets no answer (these tables are compared with the reference only); rule lists of 120..400 (thorough: up to 3000) lower-case rules, i.e. several read buffers of the text loader, loaded through LoadFromTextReader, Add, both, or a hosts file, every rule asked with its own names (exact, below it, glued to it) after the whole list was loaded, and Len() compared with the model's; expected answers from a trie-free reference whose normalisation changes the 26 upper-case letters only; non-trivial = some name matched and at least 2 rules")
 }
 
 // case12 loads one rule set into the real MixMatcher (by Add or through the text loader), asks it for every
@@ -418,6 +427,16 @@ func (r *Run) case12x(dflt string, rules []rule12, names []string, viaText bool,
 	var outs []string
 	nontrivial := false
 	fails := 0
+	// hosts tables: a rule may carry the empty address list as its value. It takes part in the precedence of
+	// values like any other rule; a name whose winning rule is such a rule gets no answer.
+	noAddr := map[int]bool{}
+	anyNoAddr := false
+	for _, rl := range rules {
+		if rl.noAddr {
+			noAddr[rl.val] = true
+			anyNoAddr = true
+		}
+	}
 	for _, nm := range names {
 		v, ok := match(nm)
 		// reference answer
@@ -472,24 +491,37 @@ func (r *Run) case12x(dflt string, rules []rule12, names []string, viaText bool,
 		} else {
 			outs = append(outs, "none")
 		}
-		if (len(want) == 0) == ok || (ok && !want[v]) {
+		wantNone := len(want) == 0 // no answer is a legitimate outcome: no rule, or a winning rule without address
+		for k := range want {
+			if noAddr[k] {
+				wantNone = true
+				delete(want, k)
+				if len(full)+len(dom)+len(re)+len(kw) > 1 {
+					r.Count("hosts: a name whose winning rule has no address is also described by another rule")
+				}
+			}
+		}
+		if (ok && !want[v]) || (!ok && !wantNone) {
 			fails++
 			if fails > 3 && len(rules) > 60 {
 				continue // a large list: the first failures carry the list
 			}
 			var rt []string
 			for _, rl := range rules {
-				rt = append(rt, fmt.Sprintf("%s => %d", rl.text(), rl.val))
+				rt = append(rt, rl.shown12())
 			}
-			wl := []int{}
+			wl := []string{}
 			for k := range want {
-				wl = append(wl, k)
+				wl = append(wl, fmt.Sprint(k))
+			}
+			if wantNone {
+				wl = append(wl, "none")
 			}
 			rep := map[string]any{"scenario": tag, "default_type": dflt, "via_text_loader": viaText, "rules": rt, "name": nm}
 			if len(rules) > 60 && fails > 1 { // the whole list is in the first failure of this case
 				var ds []string
 				for _, rl := range append(append(append(full, dom...), re...), kw...) {
-					ds = append(ds, fmt.Sprintf("%s => %d", rl.text(), rl.val))
+					ds = append(ds, rl.shown12())
 				}
 				rep["rules"] = fmt.Sprintf("the %d rules of the previous failure", len(rules))
 				rep["rules_describing_the_name"] = ds
@@ -504,7 +536,9 @@ func (r *Run) case12x(dflt string, rules []rule12, names []string, viaText bool,
 		// Len() against the model's Len (one entry per distinct rule; the shape is fact c12LenCountsValuedNodesAndRoot)
 		r.Line(fmt.Sprintf("len %s %s", d, strings.Join(rs, ";")), fmt.Sprint(length()))
 	}
-	r.Line(line, strings.Join(outs, ";"))
+	if !anyNoAddr { // the model's values are numbers; "matched a rule without address" is not visible in a hosts answer
+		r.Line(line, strings.Join(outs, ";"))
+	}
 	r.Eval(line, nontrivial && len(rules) > 1)
 	r.Count("via-text:" + b01(viaText))
 	r.Count("default:" + d)
